@@ -21,7 +21,7 @@ try:
     if b.returncode != 0:
         print("DOES NOT COMPILE:", b.stdout[:400])
     for p in props:
-        out = sh("cd /verif && ./check %s --tier %s" % (p, tier))
+        out = sh("cd /verif && VERIF_EVIDENCE_DIR=/verif/.work/seed-evidence ./check %s --tier %s" % (p, tier))
         viol = [l for l in out.stdout.split("\n") if l.startswith("VIOLATION")]
         res[p] = {"exit": out.returncode, "violations": [v[:300] for v in viol[:5]]}
         print(p, "exit", out.returncode, "|", (viol[0][:220] if viol else out.stdout.strip().split("\n")[-1][:200]))
